@@ -130,6 +130,12 @@ func Generate(r *rand.Rand, profile string) *Scenario {
 			q.CL = pick(2000, 4000, 8000)
 		}
 		if chance(0.15) {
+			q.ML = pick(1000, 4000, 8000)
+		}
+		if chance(0.1) {
+			q.MQ = pick(1000, 4000)
+		}
+		if chance(0.15) {
 			q.MinRtP = pick(3600, 36000)
 		}
 		if chance(0.15) {
@@ -160,20 +166,27 @@ func Generate(r *rand.Rand, profile string) *Scenario {
 		return p.Frac * n.GpuMem / 100
 	}
 	groupSeq := 0
+	effCpu := func(p *Pod) int {
+		c := p.Cpu
+		if p.InitCpu > c {
+			c = p.InitCpu
+		}
+		return c + p.OvhCpu
+	}
 	tryPlace := func(p *Pod, ni int) bool {
 		n := &sc.Nodes[ni]
 		u := &use[ni]
 		if n.Ready == 0 || n.Unsched == 1 || len(n.Taints) > 0 {
 			return false
 		}
-		if u.cpu+p.Cpu > n.Cpu || u.mem+p.Mem > n.Mem {
+		if u.cpu+effCpu(p) > n.Cpu || u.mem+p.Mem > n.Mem {
 			return false
 		}
 		if p.Devs == 0 {
 			if u.pods+1 > n.Pods || u.whole+len(u.groups)+p.Gpu > n.Gpus {
 				return false
 			}
-			u.cpu += p.Cpu
+			u.cpu += effCpu(p)
 			u.mem += p.Mem
 			u.pods++
 			u.whole += p.Gpu
@@ -201,7 +214,7 @@ func Generate(r *rand.Rand, profile string) *Scenario {
 		for _, g := range chosen {
 			u.groups[g] += need
 		}
-		u.cpu += p.Cpu
+		u.cpu += effCpu(p)
 		u.mem += p.Mem
 		u.pods += 1 + newGroups
 		p.Groups = chosen
@@ -215,7 +228,7 @@ func Generate(r *rand.Rand, profile string) *Scenario {
 	}
 	shapeSeq := 0
 	type tmpl struct {
-		cpu, mem, gpu, frac, gpuMem, devs, size, min, preempt int
+		cpu, mem, gpu, frac, gpuMem, devs, size, min, preempt, initCpu, ovhCpu int
 	}
 	newTmpl := func() tmpl {
 		t := tmpl{cpu: pick(100, 500, 1000, 2000), mem: pick(100, 1000, 4000), size: pick(1, 1, 1, 2, 2, 3, 4), preempt: pick(1, 1, 0)}
@@ -244,10 +257,19 @@ func Generate(r *rand.Rand, profile string) *Scenario {
 		if chance(0.5) {
 			t.min = t.size
 		}
+		if profile == "mixed" || profile == "slots" {
+			if chance(0.15) {
+				t.initCpu = pick(1000, 2000, 3000, 4000)
+			}
+			if chance(0.12) {
+				t.ovhCpu = pick(250, 500, 1500)
+			}
+		}
 		return t
 	}
 	var fifoTmpl tmpl
 	fifoShape := 0
+	extremePrio := profile == "fifo" && chance(0.2)
 	if profile == "fifo" {
 		fifoTmpl = newTmpl()
 		shapeSeq++
@@ -266,8 +288,11 @@ func Generate(r *rand.Rand, profile string) *Scenario {
 			Age: 600 + 60*r.Intn(50), LastStart: -1, Shape: shape}
 		if profile == "fifo" && shape > 0 {
 			job.Prio = pick(50, 50, 75)
+			if extremePrio {
+				job.Prio = pick(-1500000000, 50, 1000000000, 1000000000)
+			}
 		}
-		if job.Prio >= 100 {
+		if job.Prio >= 100 && shape == 0 {
 			job.Preempt = 0 // mirrors CalculatePreemptibility default; the explicit field is still set
 		}
 		sc.Jobs = append(sc.Jobs, job)
@@ -306,7 +331,7 @@ func Generate(r *rand.Rand, profile string) *Scenario {
 		}
 		for k := 0; k < t.size; k++ {
 			p := Pod{Name: fmt.Sprintf("j%d-p%d", j+1, k+1), Job: j + 1, Cpu: t.cpu, Mem: t.mem, Gpu: t.gpu, Frac: t.frac, GpuMem: t.gpuMem,
-				Devs: t.devs, Phase: "P"}
+				Devs: t.devs, Phase: "P", InitCpu: t.initCpu, OvhCpu: t.ovhCpu}
 			if sizeA > 0 {
 				if k < sizeA {
 					p.Sub = 1
